@@ -229,3 +229,164 @@ Proof.
   - cbn [length repeat best_at nth N.pred N.to_nat Pos.pred_N]. destruct ib; [apply break_penalty_le|unfold u64_max; lia].
 Qed.
 End NoKids.
+
+(* ------------------------------------------------------------------ *)
+(* the returned solution: the first decision, then only Continue, no child solutions *)
+Lemma cont_end_decs lv : forall fuel nd, exists l, n_decs (cont_end lv fuel nd) = l ++ n_decs nd
+                                          /\ Forall (fun t => td_dec t = WContinue /\ td_kids t = []) l.
+Proof.
+  induction fuel as [|f IH]; intros nd; cbn [cont_end]; destruct (n_rest nd) as [|r rest]; try (exists []; split; [reflexivity|constructor]).
+  destruct (IH (cstep (lv_type lv) nd r)) as (l & H1 & H2). exists (l ++ [TDec WContinue (cont_tll (n_decs nd) r) []]).
+  split; [rewrite H1; unfold cstep; cbn [n_decs]; rewrite <- app_assoc; reflexivity|].
+  apply Forall_app. split; [exact H2|constructor; [split; reflexivity|constructor]].
+Qed.
+
+(* on `solve`, and for every wider limit *)
+Theorem solve_all_continue W lvs fm k st lv ws first r rest nd0 :
+  lv_recs lv = r :: rest -> Forall no_kids (r :: rest) -> init_node W lv ws first r rest = Some nd0 ->
+  cont_ok (w_max W) lv (length rest) nd0 = true -> (2 <= fm)%nat -> 1 <= w_iter W ->
+  solve W lvs fm (S k) st lv ws first
+  = (sst_log (Ev_S (lv_idx lv) (WS_ok (n_pen nd0) (match rest with [] => 1 | _ => 2 end)
+                                     (match n_decs (cont_end lv (length rest) nd0) with t :: _ => td_lll t | [] => 0 end))) st,
+     Some (solution_of_node (cont_end lv (length rest) nd0))).
+Proof.
+  intros H1 H2 H3 H4 H5 H6. cbn [solve]. rewrite (fos_all_continue W lvs fm (solve W lvs fm k) lv st ws first r rest nd0 H1 H2 H3 H4 H5 H6). reflexivity.
+Qed.
+
+Definition same_but_max (W W' : wsettings) : Prop :=
+  w_iter W = w_iter W' /\ w_bbb W = w_bbb W' /\ w_indw W = w_indw W' /\ w_contw W = w_contw W'.
+
+Lemma init_node_same W W' lv ws first r rest : same_but_max W W' -> init_node W lv ws first r rest = init_node W' lv ws first r rest.
+Proof. intros (_ & _ & Hi & Hc). unfold init_node, lws_len. rewrite Hi, Hc. reflexivity. Qed.
+
+Theorem solve_all_continue_wider W W' lvs fm k st lv ws first r rest nd0 :
+  same_but_max W W' -> w_max W <= w_max W' ->
+  lv_recs lv = r :: rest -> Forall no_kids (r :: rest) -> init_node W lv ws first r rest = Some nd0 ->
+  cont_ok (w_max W) lv (length rest) nd0 = true -> (2 <= fm)%nat -> 1 <= w_iter W ->
+  solve W' lvs fm (S k) st lv ws first = solve W lvs fm (S k) st lv ws first.
+Proof.
+  intros Hs Hm H1 H2 H3 H4 H5 H6.
+  rewrite (solve_all_continue W lvs fm k st lv ws first r rest nd0 H1 H2 H3 H4 H5 H6).
+  apply (solve_all_continue W' lvs fm k st lv ws first r rest nd0 H1 H2); try assumption.
+  - rewrite <- (init_node_same W W' lv ws first r rest Hs). exact H3.
+  - exact (cont_ok_mono lv _ _ Hm _ _ H4).
+  - destruct Hs as (Hi & _). rewrite <- Hi. exact H6.
+Qed.
+
+(* ------------------------------------------------------------------ *)
+(* a whole phase: every top-level line has no child lines and fits unbroken *)
+Definition top_first (lv : lview) : first_decision :=
+  match lv_gtoks lv with g :: _ => if g =? 0 then FD_Continue 0 true else FD_Break | [] => FD_Break end.
+
+Definition line_unbroken (W : wsettings) (lv : lview) : bool :=
+  match lv_recs lv with
+  | [] => true
+  | r :: rest =>
+      forallb (fun r0 => match tr_kids r0 with None => true | Some _ => false end) (r :: rest)
+      && match init_node W lv (lv_level lv, 0) (top_first lv) r rest with
+         | Some nd0 => cont_ok (w_max W) lv (length rest) nd0
+         | None => false
+         end
+  end.
+
+Lemma format_top_wider W W' lvs depth st lv : same_but_max W W' -> w_max W <= w_max W' -> 1 <= w_iter W ->
+  line_unbroken W lv = true -> format_top W' lvs (main_fuel W') (S depth) st lv = format_top W lvs (main_fuel W) (S depth) st lv.
+Proof.
+  intros Hs Hm Hit Hl. unfold format_top. destruct (bid _); [reflexivity|]. fold (top_first lv).
+  assert (Hfm : main_fuel W' = main_fuel W) by (unfold main_fuel; destruct Hs as (Hi & _); rewrite Hi; reflexivity). rewrite Hfm.
+  unfold line_unbroken in Hl. destruct (lv_recs lv) as [|r rest] eqn:Er.
+  - cbn [solve]. unfold find_optimal_solution. rewrite Er. reflexivity.
+  - apply andb_true_iff in Hl. destruct Hl as (Hk & Hi). destruct (init_node W lv (lv_level lv, 0) (top_first lv) r rest) as [nd0|] eqn:Ei; [|discriminate].
+    assert (Hnk : Forall no_kids (r :: rest)).
+    { rewrite forallb_forall in Hk. apply Forall_forall. intros r0 Hr0. specialize (Hk r0 Hr0). unfold no_kids. destruct (tr_kids r0); [discriminate|reflexivity]. }
+    rewrite (solve_all_continue_wider W W' lvs (main_fuel W) depth st lv (lv_level lv, 0) (top_first lv) r rest nd0 Hs Hm Er Hnk Ei Hi
+               ltac:(unfold main_fuel; lia) Hit). reflexivity.
+Qed.
+
+(* "a file whose every line fits unbroken is laid out identically at every wrap_column at or above that limit" *)
+Theorem wrap_phase1_wider W W' infos lines :
+  same_but_max W W' -> w_max W <= w_max W' -> 1 <= w_iter W ->
+  (forall lv, In lv (mk_lviews infos lines) -> lv_top lv = true -> line_unbroken W lv = true) ->
+  wrap_phase1 W' infos lines = wrap_phase1 W infos lines.
+Proof.
+  intros Hs Hm Hit Hall. unfold wrap_phase1, wrap_phase. set (lvs := mk_lviews infos lines) in *.
+  assert (Hgen : forall l0, (forall lv, In lv l0 -> lv_top lv = true -> line_unbroken W lv = true) -> forall st,
+            fold_left (fun st0 lv => if lv_top lv then format_top W' lvs (main_fuel W') (S (length lines)) st0 lv else st0) l0 st
+            = fold_left (fun st0 lv => if lv_top lv then format_top W lvs (main_fuel W) (S (length lines)) st0 lv else st0) l0 st).
+  { induction l0 as [|lv r IH]; intros H0 st; [reflexivity|]. cbn [fold_left].
+    destruct (lv_top lv) eqn:Et; [rewrite (format_top_wider W W' lvs (length lines) st lv Hs Hm Hit (H0 lv (or_introl eq_refl) Et))|];
+      apply IH; intros lv' H'; apply H0; right; exact H'. }
+  apply Hgen. exact Hall.
+Qed.
+
+Corollary olf_model_wider rs W W' lines l :
+  same_but_max W W' -> w_max W <= w_max W' -> 1 <= w_iter W ->
+  (forall lv, In lv (mk_lviews (map tokinfo_of l) lines) -> lv_top lv = true -> line_unbroken W lv = true) ->
+  olf_model rs W' false lines l = olf_model rs W false lines l.
+Proof. intros Hs Hm Hit Hall. unfold olf_model. rewrite (wrap_phase1_wider W W' _ lines Hs Hm Hit Hall). reflexivity. Qed.
+
+Print Assumptions solve_all_continue_wider.
+Print Assumptions olf_model_wider.
+
+(* ------------------------------------------------------------------ *)
+(* non-vacuity: a real file (tools/trace2coq.py nb nb.pas 120,0,1,0,2,2,0):
+     procedure Foo;
+     begin
+       Result := Compute(Alpha, Beta) + Gamma;
+       X := 1;
+     end;                                                               *)
+Definition nb_infos : list tokinfo :=
+  [mkTI (TT_Keyword KK_Procedure) 0 9 None;
+   mkTI TT_Identifier 1 3 None;
+   mkTI (TT_Op OK_Semicolon) 0 1 None;
+   mkTI (TT_Keyword KK_Begin) 1 5 None;
+   mkTI TT_Identifier 1 6 None;
+   mkTI (TT_Op OK_Assign) 1 2 None;
+   mkTI TT_Identifier 1 7 None;
+   mkTI (TT_Op OK_LParen) 0 1 None;
+   mkTI TT_Identifier 0 5 None;
+   mkTI (TT_Op OK_Comma) 0 1 None;
+   mkTI TT_Identifier 1 4 None;
+   mkTI (TT_Op OK_RParen) 0 1 None;
+   mkTI (TT_Op OK_Plus) 1 1 None;
+   mkTI TT_Identifier 1 5 None;
+   mkTI (TT_Op OK_Semicolon) 0 1 None;
+   mkTI TT_Identifier 1 1 None;
+   mkTI (TT_Op OK_Assign) 1 2 None;
+   mkTI (TT_NumberLiteral NK_Decimal) 1 1 None;
+   mkTI (TT_Op OK_Semicolon) 0 1 None;
+   mkTI (TT_Keyword KK_End) 1 3 None;
+   mkTI (TT_Op OK_Semicolon) 0 1 None;
+   mkTI TT_Eof 0 0 None].
+Definition nb_lines : list lline :=
+  [mkLine LLT_RoutineHeader 0 None [0; 1; 2]%nat;
+   mkLine LLT_Unknown 0 None [3]%nat;
+   mkLine LLT_Assignment 1 None [4; 5; 6; 7; 8; 9; 10; 11; 12; 13; 14]%nat;
+   mkLine LLT_Assignment 1 None [15; 16; 17; 18]%nat;
+   mkLine LLT_Unknown 0 None [19; 20]%nat;
+   mkLine LLT_Eof 0 None [21]%nat].
+
+Definition nb_W (max : N) : wsettings := mkWS max 20000 false 2 4.
+
+(* every top-level line fits unbroken at 41 (the longest line is 41 wide), not at 40 *)
+Example nb_unbroken_41 : forallb (fun lv => negb (lv_top lv) || line_unbroken (nb_W 41) lv) (mk_lviews nb_infos nb_lines) = true.
+Proof. vm_compute. reflexivity. Qed.
+Example nb_not_unbroken_40 : forallb (fun lv => negb (lv_top lv) || line_unbroken (nb_W 40) lv) (mk_lviews nb_infos nb_lines) = false.
+Proof. vm_compute. reflexivity. Qed.
+
+Example nb_same_layout_at_every_wider_limit : forall M, 41 <= M -> wrap_phase1 (nb_W M) nb_infos nb_lines = wrap_phase1 (nb_W 41) nb_infos nb_lines.
+Proof.
+  intros M HM. apply wrap_phase1_wider; [repeat split|exact HM|cbn; lia|].
+  intros lv Hin Ht. pose proof nb_unbroken_41 as H. rewrite forallb_forall in H. specialize (H lv Hin). rewrite Ht in H. exact H.
+Qed.
+
+(* the decisions: the assignment line is one break (its first token) and ten Continues, penalty 3 *)
+Example nb_line2 :
+  match nth_error (mk_lviews nb_infos nb_lines) 2 with
+  | Some lv => match solve (nb_W 41) (mk_lviews nb_infos nb_lines) (main_fuel (nb_W 41)) 7 sst_init lv (1, 0) FD_Break with
+               | (_, Some s) => map td_dec (sol_decs s) = WBreak 0 :: repeat WContinue 10 /\ sol_pen s = 3 /\ sol_len s = 41
+               | _ => False
+               end
+  | None => False
+  end.
+Proof. vm_compute. repeat split; reflexivity. Qed.
